@@ -11,6 +11,7 @@ package registry
 
 import (
 	"context"
+	"encoding/json"
 	"errors"
 	"fmt"
 	"io"
@@ -27,6 +28,7 @@ import (
 
 	"github.com/ollama/ollama/server/internal/cache/blob"
 	"github.com/ollama/ollama/server/internal/client/ollama"
+	"github.com/ollama/ollama/zzverif"
 )
 
 type c09RetryReg struct {
@@ -181,5 +183,285 @@ func TestVerifC09RetryTable(t *testing.T) {
 	}
 	if err := os.WriteFile(filepath.Join(outdir, "table.txt"), []byte(strings.Join(lines, "\n")+"\n"), 0o644); err != nil {
 		t.Fatal(err)
+	}
+}
+
+// ---------------------------------------------------------------------------------------------
+// Histories through the real HTTP handler: a run of temporary failures (as many as 10 in a row),
+// then success, a permanent error, or the API client going away.  L1: what the handler reports
+// (success or not), how many Pull attempts it made and whether the name is linked, against the
+// Lean model of the loop (oracle command `hpull`).  L2: the stream ends with "success" ⇒ the name
+// resolves and every layer of its manifest is in the cache with the manifest's size and SHA-256;
+// no success ⇒ the name is not linked.
+
+type c09HistReg struct {
+	mu       sync.Mutex
+	script   []string // behaviour of attempt i (see c09HistBehaviours); beyond the script: the client goes away
+	attempt  int      // index of the current attempt (manifest requests seen - 1)
+	steps    [][]string
+	planGap  []bool
+	cancel   context.CancelFunc
+	withCfg  bool
+	answered int // manifest requests answered from the script
+}
+
+var (
+	c09HistABCD = []byte("abcd")
+	c09HistCfg  = []byte("z")
+)
+
+func (r *c09HistReg) manifestJSON() string {
+	d := blob.DigestFromBytes(c09HistABCD)
+	if r.withCfg {
+		return fmt.Sprintf(`{"layers":[{"digest":"%s","size":4}],"config":{"digest":"%s","size":1}}`, d, blob.DigestFromBytes(c09HistCfg))
+	}
+	return fmt.Sprintf(`{"layers":[{"digest":"%s","size":4}]}`, d)
+}
+
+func (r *c09HistReg) RoundTrip(req *http.Request) (*http.Response, error) {
+	if err := req.Context().Err(); err != nil {
+		return nil, context.Cause(req.Context())
+	}
+	str := func(s string) io.ReadCloser { return io.NopCloser(strings.NewReader(s)) }
+	d := blob.DigestFromBytes(c09HistABCD)
+	r.mu.Lock()
+	if strings.Contains(req.URL.Path, "/manifests/") {
+		r.attempt++
+		if r.attempt >= len(r.script) {
+			r.mu.Unlock()
+			r.cancel() // the script is over and the handler still retries: the API client goes away
+			return nil, context.Canceled
+		}
+		r.answered++
+	}
+	b := r.script[r.attempt]
+	at := r.attempt
+	step := func(s string) { r.steps[at] = append(r.steps[at], s) }
+	defer r.mu.Unlock()
+	errBody := `{"errors":[{"code":"X","message":"scripted"}]}`
+	switch {
+	case strings.Contains(req.URL.Path, "/manifests/"):
+		switch b {
+		case "m5xx":
+			return c09RetryResp(req, 502, str(errBody), nil), nil
+		case "m4xx":
+			return c09RetryResp(req, 403, str(errBody), nil), nil
+		case "mNotFound":
+			return c09RetryResp(req, 404, str(`{"errors":[{"code":"MANIFEST_UNKNOWN","message":"x"}]}`), nil), nil
+		case "mTransport":
+			return nil, errors.New("verif: dial tcp: transport failure")
+		case "mBadJSON":
+			return c09RetryResp(req, 200, str(`{"layers":`), nil), nil
+		}
+		return c09RetryResp(req, 200, str(r.manifestJSON()), nil), nil
+	case strings.Contains(req.URL.Path, "/chunksums/"):
+		body := fmt.Sprintf("%s 0-1\n%s 2-3\n", blob.DigestFromBytes(c09HistABCD[:2]), blob.DigestFromBytes(c09HistABCD[2:]))
+		if b == "gap" {
+			body = fmt.Sprintf("%s 0-1\n", blob.DigestFromBytes(c09HistABCD[:2]))
+			r.planGap[at] = true
+		}
+		return c09RetryResp(req, 200, str(body), map[string]string{"Content-Location": "http://blobs.example.com/v2/library/x/blobs/" + d.String()}), nil
+	}
+	// chunk GET
+	var s, e int
+	fmt.Sscanf(req.Header.Get("Range"), "bytes=%d-%d", &s, &e)
+	if strings.HasSuffix(req.URL.Path, blob.DigestFromBytes(c09HistCfg).String()) {
+		step("rel 0 body 1 " + fmt.Sprintf("%x", c09HistCfg) + " eof")
+		return c09RetryResp(req, 200, &c09RetryBody{data: append([]byte{}, c09HistCfg...)}, nil), nil
+	}
+	data := append([]byte{}, c09HistABCD[s:e+1]...)
+	if s == 0 {
+		step(fmt.Sprintf("rel 0 body 1 %x eof", data))
+		return c09RetryResp(req, 200, &c09RetryBody{data: data}, nil), nil
+	}
+	switch b {
+	case "c5xx":
+		step("rel 0 fail status5xx")
+		return c09RetryResp(req, 500, str(errBody), nil), nil
+	case "c4xx":
+		step("rel 0 fail status4xx")
+		return c09RetryResp(req, 410, str(errBody), nil), nil
+	case "reset":
+		step(fmt.Sprintf("rel 0 body 1 %x err", data[:1]))
+		return c09RetryResp(req, 200, &c09RetryBody{data: data[:1], err: errors.New("verif: read tcp: connection reset by peer")}, nil), nil
+	case "corrupt":
+		data[0] ^= 0x55
+		step(fmt.Sprintf("rel 0 body 1 %x eof", data))
+		return c09RetryResp(req, 200, &c09RetryBody{data: data}, nil), nil
+	case "short":
+		step(fmt.Sprintf("rel 0 body 1 %x eof", data[:1]))
+		return c09RetryResp(req, 200, &c09RetryBody{data: data[:1]}, nil), nil
+	case "silent":
+		step("timeout")
+		r.mu.Unlock()
+		<-req.Context().Done() // until the client's ReadTimeout fires
+		r.mu.Lock()
+		return nil, context.Cause(req.Context())
+	}
+	step(fmt.Sprintf("rel 0 body 1 %x eof", data))
+	return c09RetryResp(req, 200, &c09RetryBody{data: data}, nil), nil
+}
+
+func TestVerifC09Handler(t *testing.T) {
+	out := zzverif.NewOut()
+	defer out.Close()
+	seed := zzverif.Seed()
+	n := zzverif.EnvInt("VERIF_N", 200)
+	ridx := -1
+	if p := os.Getenv("VERIF_REPLAY"); p != "" {
+		raw, err := os.ReadFile(p)
+		if err != nil {
+			t.Fatal(err)
+		}
+		var k string
+		if _, err := fmt.Sscanf(string(raw), "seed=%d kind=%s idx=%d", &seed, &k, &ridx); err != nil || k != "handler" {
+			t.Fatalf("VERIF_REPLAY: not a handler case header: %q", raw)
+		}
+	}
+	root := zzverif.NewRng(seed).Fork().Fork().Fork()
+	temporary := []string{"m5xx", "c5xx", "reset", "silent", "m5xx", "reset"}
+	permanent := []string{"m4xx", "mNotFound", "mTransport", "mBadJSON", "c4xx", "corrupt", "short", "gap"}
+	cls := map[string]string{"m5xx": "status5xx", "m4xx": "status4xx", "mNotFound": "notFound", "mTransport": "transport",
+		"mBadJSON": "invalidManifest"}
+	for i := 0; i < n; i++ {
+		rng := root.Fork()
+		if ridx >= 0 && i != ridx {
+			continue
+		}
+		tag := fmt.Sprintf("seed=%d kind=handler idx=%d", seed, i)
+		// how many temporary failures in a row: the whole range 0..10, half of the cases >= 5
+		k := rng.Intn(11)
+		if rng.Bool() {
+			k = rng.Range(5, 10)
+		}
+		var script []string
+		for j := 0; j < k; j++ {
+			script = append(script, zzverif.Pick(rng, temporary))
+		}
+		ending := zzverif.Pick(rng, []string{"ok", "ok", "permanent", "gone"})
+		stream := !rng.Chance(1, 8)
+		if !stream { // non-streaming requests make exactly one attempt
+			script = script[:0]
+			if rng.Bool() {
+				script = append(script, zzverif.Pick(rng, temporary))
+				ending = "none"
+			}
+			if ending == "gone" {
+				ending = "ok"
+			}
+		}
+		switch ending {
+		case "ok":
+			script = append(script, "good")
+		case "permanent":
+			script = append(script, zzverif.Pick(rng, permanent))
+		}
+		out.Count(fmt.Sprintf("handler_temporary_failures_in_a_row_%d", k))
+		out.Count("handler_ending_" + ending)
+		if !stream {
+			out.Count("handler_non_streaming")
+		}
+		dir := t.TempDir()
+		reg := &c09HistReg{script: script, attempt: -1, steps: make([][]string, len(script)+1), planGap: make([]bool, len(script)+1),
+			withCfg: rng.Chance(1, 3)}
+		var body string
+		synctest.Test(t, func(t *testing.T) {
+			c, err := blob.Open(dir)
+			if err != nil {
+				t.Fatal(err)
+			}
+			ctx, cancel := context.WithCancel(context.Background())
+			defer cancel()
+			reg.cancel = cancel
+			s := &Local{
+				Client: &ollama.Registry{Cache: c, HTTPClient: &http.Client{Transport: reg}, MaxStreams: 1,
+					ChunkingThreshold: 2, ReadTimeout: 10 * time.Second},
+				Logger: slog.New(slog.NewTextHandler(io.Discard, nil)),
+			}
+			reqBody := `{"model":"http://example.com/library/h"}`
+			if !stream {
+				reqBody = `{"model":"http://example.com/library/h","stream":false}`
+			}
+			req := httptest.NewRequest("POST", "/api/pull", strings.NewReader(reqBody)).WithContext(ctx)
+			rec := httptest.NewRecorder()
+			done := make(chan struct{})
+			go func() { defer close(done); s.ServeHTTP(rec, req) }()
+			select {
+			case <-done:
+			case <-time.After(time.Hour): // fake time, far beyond every backoff
+				cancel()
+				<-done
+				out.L2("handler-does-not-end", tag, "handlePull still running after one fake hour")
+			}
+			body = rec.Body.String()
+		})
+		// what the API client sees last
+		lines := strings.Split(strings.TrimSpace(body), "\n")
+		last := lines[len(lines)-1]
+		success := strings.Contains(last, `"status":"success"`)
+		linkFile := filepath.Join(dir, "manifests", "example.com", "library", "h", "latest")
+		linkData, linkErr := os.ReadFile(linkFile)
+		link := "none"
+		if linkErr == nil {
+			link = "1"
+		}
+		// ---- op line
+		var sb strings.Builder
+		nat := len(script)
+		fmt.Fprintf(&sb, "hpull 2 1 1 1 0 %d", nat)
+		mj := reg.manifestJSON()
+		for a := 0; a < nat; a++ {
+			if c, ok := cls[script[a]]; ok {
+				fmt.Fprintf(&sb, " 0 manerr %s", c)
+			} else if reg.withCfg {
+				fmt.Fprintf(&sb, " 0 man 1 %d 1 %x 4 1 %x 1", len(mj), c09HistABCD, c09HistCfg)
+			} else {
+				fmt.Fprintf(&sb, " 0 man 1 %d 1 %x 4 0", len(mj), c09HistABCD)
+			}
+			plan := fmt.Sprintf("plist 2 %x 0 2 %x 2 2", c09HistABCD[:2], c09HistABCD[2:])
+			if reg.planGap[a] || script[a] == "gap" {
+				plan = fmt.Sprintf("plist 1 %x 0 2", c09HistABCD[:2])
+			}
+			fmt.Fprintf(&sb, " 2 %s pfail", plan)
+			fmt.Fprintf(&sb, " %d", len(reg.steps[a]))
+			for _, s := range reg.steps[a] {
+				sb.WriteString(" " + s)
+			}
+		}
+		op := sb.String()
+		out.Case(op, fmt.Sprintf("res=? success=%v attempts=%d link=%s", success, reg.answered, link))
+		if f, err := os.OpenFile(filepath.Join(zzverif.OutDir(), "tags.txt"), os.O_APPEND|os.O_CREATE|os.O_WRONLY, 0o644); err == nil {
+			fmt.Fprintln(f, tag)
+			f.Close()
+		}
+		// ---- L2, independent of the model
+		caseLine := tag + " :: " + op
+		if success {
+			if linkErr != nil {
+				out.L2("handler-success-without-model", caseLine, fmt.Sprintf("stream ends with %q but the name does not resolve (attempts=%d)", last, reg.answered))
+			} else {
+				var m ollama.Manifest
+				if err := json.Unmarshal(linkData, &m); err != nil {
+					out.L2("handler-success-without-model", caseLine, "linked manifest unreadable: "+err.Error())
+				}
+				ls := append([]*ollama.Layer{}, m.Layers...)
+				if m.Config != nil && m.Config.Digest.IsValid() {
+					ls = append(ls, m.Config)
+				}
+				for _, l := range ls {
+					b, err := os.ReadFile(filepath.Join(dir, "blobs", strings.Replace(l.Digest.String(), ":", "-", 1)))
+					if err != nil || int64(len(b)) != l.Size || blob.DigestFromBytes(b) != l.Digest {
+						out.L2("handler-success-without-model", caseLine, fmt.Sprintf("stream ends with success but layer %s is not in the cache with size %d and its digest (have %d bytes, err=%v)", l.Digest.Short(), l.Size, len(b), err))
+					}
+				}
+			}
+		} else if linkErr == nil {
+			out.L2("handler-error-but-linked", caseLine, fmt.Sprintf("stream ends with %q but the name is linked", last))
+		}
+		if ending == "ok" && !success {
+			out.Count("handler_good_ending_not_reached") // not a property failure; tells about the generator
+		}
+		out.Count("cases")
+		out.Count("handler_cases")
 	}
 }
